@@ -86,7 +86,9 @@ structure State where
   feeAcc : Addr
   posAcc : Addr
   daoAcc : Addr
-  keys : List (Nat × Addr)           -- key index -> address (genesis accounts, with pubkey)
+  keys : List (Nat × Addr)           -- key index -> address
+  nStored : Nat                      -- keys below this index belong to genesis accounts that carry their public key;
+                                     -- the others (multisignature keys) can only come with the transaction
   height : Int
   time : Int
   cHeight : Int                      -- header of the check state: the last committed block
@@ -574,7 +576,7 @@ def anteOK (s : State) (t : Tx) (simulate : Bool) : Bool :=
   (t.memoEff : Int) ≤ s.p.maxMemo &&
   -- key: from the signature, else from the signer's account (genesis accounts carry their key)
   (let verif? : Option Addr := if t.pk then s.keys.lookup t.signer
-      else if s.keys.any (·.2 == signer) then some signer else none
+      else if s.keys.any (fun k => k.2 == signer && decide (k.1 < s.nStored)) then some signer else none
    match verif? with
    | none => false
    | some verif =>
@@ -616,6 +618,7 @@ structure Genesis where
   posAcc : Addr
   daoAcc : Addr
   keys : List (Nat × Addr)
+  nStored : Nat
   defaultMaxVals : Int
 
 /-- `InitChain`: auth genesis (accounts, explicit supply), pos genesis (validators staked and
@@ -627,7 +630,7 @@ def genesis (g : Genesis) : State × List (Addr × Int) :=
     awards := [], burns := [], proposer := "", rel := [], p := g.p,
     acl := g.paramNames.map (fun n => (n, g.aclOwner)), daoOwner := g.daoOwner,
     pool := g.pool, feeAcc := g.feeAcc, posAcc := g.posAcc, daoAcc := g.daoAcc,
-    keys := g.keys, height := 0, time := 0, cHeight := 0, cTime := 0, index := [], blockTxs := [] }
+    keys := g.keys, nStored := g.nStored, height := 0, time := 0, cHeight := 0, cTime := 0, index := [], blockTxs := [] }
   let s1 := g.accs.foldl (fun st e => { setBal st e.1 e.2 with supply := st.supply + e.2 }) s0
   let s2 := g.vals.foldl (fun st e =>
     let v : Val := { status := 2, jailed := false, tokens := e.2, unstake := 0 }
